@@ -181,6 +181,9 @@ def normalise_module(tree, relpath):
     try:
         with open(ref_path, encoding="utf-8") as f:
             ref = ast.parse(f.read())
+        from . import canon
+
+        ref = canon.canonicalise(ref)
     except SyntaxError:
         return {}
     cf, rf = _funcs(tree), _funcs(ref)
